@@ -587,6 +587,11 @@ for _patch, _props in (('refactors/R3/patch.diff', ('C04', 'C05', 'C06', 'C07', 
                        ('refactors/R31/patch.diff', ('C01', 'C03', 'C04', 'C05', 'C09', 'C10', 'C19')),
                        ('refactors/R32/patch.diff', ('C12', 'C13', 'C14', 'C17')),
                        ('refactors/R33/patch.diff', ('C02', 'C03', 'C04', 'C08', 'C11', 'C12', 'C14', 'C15', 'C16', 'C18')),   # harmless twins of round-10 seeds
+                       ('refactors/R34/patch.diff', ('C03', 'C04', 'C07', 'C08', 'C18', 'C19')),
+                       ('refactors/R35/patch.diff', ('C01', 'C02', 'C03', 'C08', 'C09', 'C11', 'C17')),
+                       ('refactors/R36/patch.diff', ('C12', 'C13', 'C14', 'C15', 'C16', 'C18')),
+                       ('refactors/R37/patch.diff', ('C09', 'C10', 'C19', 'C20')),
+                       ('refactors/R38/patch.diff', ('C03', 'C05', 'C12', 'C14', 'C17', 'C19')),   # harmless twins of round-11 / 12 seeds
                        ('refactors/R20/patch.diff', ('C12', 'C13'))):       # harmless twin of seed C12f (delay parameters read by a helper)   # harmless twin of seed C08e (memo with a complete key)    # harmless twin of seed C16c (prior spec looked up once per parameter)     # harmless twin of seed C15b (columns by list indexing, not by mask)
     for _p in _props:
         MUTANTS.append({'prop': _p, 'name': 'refactor-' + _patch.split('/')[1], 'kind': 'silent', 'patch': _patch})
